@@ -7,9 +7,6 @@
  * mutex.unlock / release inside wait = assert the invariant (at arbitrary ghost instances) and the properties;
  * wait(lock, pred) = if (!pred()) { release; havoc; assume invariant && pred() }  with pred = the lowered lambda.
  */
-#define OP_NONE tulz_rwp_Resource_OpType_None
-#define OP_READ tulz_rwp_Resource_OpType_Read
-#define OP_WRITE tulz_rwp_Resource_OpType_Write
 typedef tulz_rwp_Resource_OpType OpType;
 typedef long Id;
 #ifndef QMAXMAX
@@ -28,7 +25,7 @@ struct Res *g_self; Id g_bound_at_lock; int g_tst_at_lock; _Bool g_popped_watche
 size_t g_j, g_a, g_b;                                              /* arbitrary queue positions */
 _Bool g_notify_pending;                                            /* the bound moved and nobody was notified yet */
 _Bool g_fast_path; OpType g_op_at_lock; size_t g_qlen_at_lock; size_t g_hW_at_lock;
-size_t g_admitted_now;
+size_t g_admitted_now; _Bool g_busy_at_lock;
 
 /* ---- std::deque model ---- */
 static void Deq__ctor_default(struct Deq *q) { q->head = 0; q->len = 0; }
@@ -125,6 +122,7 @@ static void Mutex__lock(struct Mutex *m) {
   __CPROVER_assume(INV_INSTANCES(s));
   g_bound_at_lock = s->m_upperUnlockBound; g_popped_watched = 0; g_tst_at_lock = g_tst;
   g_op_at_lock = s->m_activeOp; g_qlen_at_lock = s->m_queue.len; g_hW_at_lock = g_hW; g_notify_pending = 0;
+  g_busy_at_lock = (g_hR + g_hW + g_asleep + WADM > 0);
   if (g_mode == 0 && g_me) __CPROVER_assume(g_tst == T_NONE);     /* the owner has not issued its ticket yet */
   if (g_mode == 1) {      /* caller protocol: unlock(t) is called by a holder of kind t; it stops being one now */
     __CPROVER_assume(g_myType == OP_READ ? g_hR >= 1 : g_hW >= 1);
@@ -169,6 +167,7 @@ static void CondVar__wait(struct CondVar *cv, struct ULock *l, struct closure_Re
     __CPROVER_assert(0, "C03 a request that queued itself cannot already be admitted in the same critical section");
     return;
   }
+  __CPROVER_assert(g_busy_at_lock, "C02 an idle resource grants the next request without waiting");
   /* C12: a reader parks only if a writer is active, or the queue was non-empty (and then a writer waits) */
   __CPROVER_assert(g_myType == OP_READ ==> (g_op_at_lock == OP_WRITE || g_qlen_at_lock > 0), "C12 a reader waits only when a writer is active or waiting");
   if (g_me) { g_tst = T_WAIT; g_tid = id; g_ttype = g_myType; g_tk = s->m_queue.len - 1; }
